@@ -388,6 +388,8 @@ def suite_groups(rng: random.Random, tier: str) -> Suite:
                     r = s_ti(scenario.connect_interval(A, B, ts, weak))
                 except ScenarioError:
                     r = "ScenarioError"
+                except Exception as e:  # noqa: BLE001   any other exception is an observation, not a harness crash
+                    r = type(e).__name__
                 s.add(f"cint {s_list(a)} {s_list(b)} {ts} {weak}", r, "cint:" + ("err" if r == "ScenarioError" else f"w{weak}"))
     return s
 
